@@ -59,7 +59,8 @@ Prov(s, salt) == [k \in DOMAIN s |-> (s[k] + 2 * k + salt) % 4]
 \* TimeStamp at another instant (disjoint in time from both: affinity 0, not 0/0) -- next to
 \* proper ones whose affinities are fractions
 Degenerate == << G("TimeInterval", <<1, 1>>), G("TimeStamp", 2), G("BoundingBox", <<1, 0, 1, 2>>),
-                 G("TimeInterval", <<0, 2>>), G("TimeInterval", <<1, 3>>), G("BoundingBox", <<0, 0, 2, 2>>) >>
+                 G("TimeInterval", <<0, 2>>), G("TimeInterval", <<1, 3>>),
+                 G("BoundingBox", <<0, 1, 2, 1>>) >>     \* a flat box (low = high): no area, but a duration -- time affinity 1 and 1/3
 
 \* kinds that are buffered, next to TimeStamps: with TB = 2, 4 ticks the buffer exceeds 1 s at unit 1 s
 Buffered == << G("TimeStamp", 1), G("TimeStamp", 4), G("TimeStamp", 8),
